@@ -346,10 +346,10 @@ def run(ctx):
         if len(ctx.violations) > 10:
             return
     # oracle-only: requested grids that are not dyadic (thirds, sevenths, tenths, linspace(0, 3, 22)), exact labels
-    c04grid.run(ctx, ctx.n(500, 6000), protocols=True)
+    c04grid.run(ctx, ctx.n(300, 6000), protocols=True)
     if len(ctx.violations) > 10:
         return
-    n = ctx.n(2500, 50000) * (2 if widen and ctx.tier != "thorough" else 1)
+    n = ctx.n(2000, 50000) * (2 if widen and ctx.tier != "thorough" else 1)
     done = 0
     while done < n and len(ctx.violations) <= 10:
         cases = [gen_case(ctx.rng) for _ in range(min(400, n - done))]
